@@ -8,7 +8,7 @@ Extraction "../ocaml/gen/ModelC04.ml"
   block_cipher_encrypt block_cipher_decrypt
   query16 cfb_query query_finish buf_update
   ecb_blocks ecb_init ecb_update ecb_finish ecb_spec
-  cbc_encrypt_blocks cbc_enc_loop cbc_decrypt_blocks cbc_padding_encrypt cbc_padding_decrypt
+  cbc_encrypt_blocks cbc_enc_loop cbc_decrypt_blocks cbc_padding_encrypt cbc_padding_decrypt sm4_cbc_padding_decrypt cbc_pad_dec_spec_strict
   cbc_init cbc_encrypt_update cbc_encrypt_finish cbc_decrypt_update cbc_decrypt_finish
   cbc_enc_spec cbc_dec_spec cbc_pad_enc_spec cbc_pad_dec_spec
   ctr_encrypt_blocks ctr32_encrypt_blocks ctr_blocks_sf ctr_incr ctr32_incr ctr_encrypt
